@@ -58,14 +58,14 @@ func (s *fsState) del(p string) {
 func (w *World) fsStep(t *Thread, fr *frame, what string) bool {
 	s := w.fs()
 	s.steps++
-	crash := w.freshND(fmt.Sprintf("crash-before:%s", what), "bool", 0)
+	crash := w.freshND(fmt.Sprintf("crash-before:%s", what), "env-bool", 0)
 	if w.decideBool(crash, "crash point") {
 		if s.onCrash != nil {
 			w.callValue(t, fr, s.onCrash, nil)
 		}
 		panic(pathEnd{"stop", "process died at " + what})
 	}
-	fail := w.freshND(fmt.Sprintf("fails:%s", what), "bool", 0)
+	fail := w.freshND(fmt.Sprintf("fails:%s", what), "env-bool", 0)
 	return w.decideBool(fail, "fs fault")
 }
 
